@@ -397,6 +397,18 @@ KERNELS += [
 ]
 
 
+KERNELS += [
+    dict(name="SidAuthorityRange", props=["C08", "C05"], file="_security_descriptor.py", func="sid_to_bytes", kind="prop",
+         loc=("if_containing", "authority >="), typ="Nat", subst={"authority": "a"},
+         params="(a : Nat)", obl="(a : Nat)", call="a", model="(a ≥ 2 ^ 48)", imports=["Model.SecDesc"], unfold=[]),
+    dict(name="SidSubAuthorityRange", props=["C08", "C05"], file="_security_descriptor.py", func="sid_to_bytes", kind="prop",
+         loc=("if_containing", "sub_auth >="), typ="Nat", subst={"sub_auth": "a"},
+         params="(a : Nat)", obl="(a : Nat)", call="a", model="(a ≥ 2 ^ 32)", imports=["Model.SecDesc"], unfold=[]),
+    dict(name="ConstSidPattern", props=["C08", "C05"], file="_security_descriptor.py", func="sid_to_bytes", kind="const", loc=("const", "sid_pattern"),
+         conv="str", typ="String", model="SecDesc.sidPatternSource", imports=["Model.SecDesc"]),
+]
+
+
 def const_value(node):
     """evaluate the small expression language constants are written in"""
     import uuid as _uuid
@@ -406,6 +418,8 @@ def const_value(node):
         f = ast.unparse(node.func)
         if isinstance(node.func, ast.Attribute) and node.func.attr == "encode" and len(node.args) == 1 and not node.keywords:
             return const_value(node.func.value).encode(const_value(node.args[0]))
+        if f == "re.compile" and len(node.args) == 1 and not node.keywords:
+            return const_value(node.args[0])
         if f == "uuid.UUID" and len(node.args) == 1 and not node.keywords:
             return _uuid.UUID(const_value(node.args[0]))
         if f == "SyntaxId" and len(node.args) == 3 and not node.keywords:
@@ -436,6 +450,8 @@ def lean_const(v, conv):
         return "[" + ", ".join(str(b) for b in v) + "]"
     if conv == "int" and isinstance(v, int) and v >= 0:
         return str(v)
+    if conv == "str" and isinstance(v, str) and all(32 <= ord(ch) < 127 for ch in v):
+        return '"' + v.replace("\\", "\\\\").replace('"', '\\"') + '"' 
     if conv == "oid" and isinstance(v, str) and all(p.isdigit() for p in v.split(".")):
         return "[" + ", ".join(str(int(p)) for p in v.split(".")) + "]"
     if conv == "syntax" and isinstance(v, tuple) and v[0] == "syntax" and isinstance(v[1], _uuid.UUID):
@@ -500,6 +516,10 @@ KERNELS += [
     L("LayoutRequest", ["C12", "C13"], "_rpc/_request.py", "Request", "Rpc.requestLayout"),
     L("LayoutResponse", ["C12", "C16"], "_rpc/_request.py", "Response", "Rpc.responseLayout"),
     L("LayoutFault", ["C12"], "_rpc/_pdu.py", "Fault", "Rpc.faultLayout"),
+    L("LayoutKdfParams", ["C11"], "_gkdi.py", "KDFParameters", "Gkdi.kdfParamsLayout"),
+    L("LayoutFfcKey", ["C11", "C03"], "_gkdi.py", "FFCDHKey", "Gkdi.ffcKeyLayout"),
+    L("LayoutSyntaxId", ["C12"], "_rpc/_bind.py", "SyntaxId", "Rpc.syntaxLayout"),
+    L("LayoutContextResult", ["C12", "C15"], "_rpc/_bind.py", "ContextResult", "Rpc.resultLayout"),
 ]
 
 
@@ -516,6 +536,13 @@ def layout_items(fn):
                     and isinstance(v.func.value.op, ast.Add) and ast.unparse(v.func.value.left).startswith("self.")
                     and isinstance(v.func.value.right, ast.Constant) and v.func.value.right.value == "\0"):
                 locs[st.targets[0].id] = "utf16z:" + ast.unparse(v.func.value.left)[5:]
+                ok = True
+            kws = {k.arg: k.value for k in v.keywords} if isinstance(v, ast.Call) else {}
+            if (isinstance(v, ast.Call) and isinstance(v.func, ast.Attribute) and v.func.attr == "to_bytes" and len(v.args) == 1 and set(kws) == {"byteorder"}
+                    and isinstance(kws["byteorder"], ast.Constant) and kws["byteorder"].value == "big"
+                    and ast.unparse(v.func.value).startswith("self.") and ast.unparse(v.func.value).count(".") == 1
+                    and ast.unparse(v.args[0]).startswith("self.") and ast.unparse(v.args[0]).count(".") == 1):
+                locs[st.targets[0].id] = "be:" + ast.unparse(v.func.value)[5:] + ":" + ast.unparse(v.args[0])[5:]
                 ok = True
         if not ok:
             raise Unsupported(f"statement before the join: {ast.unparse(st)[:60]}")
